@@ -91,6 +91,39 @@ func checkC15(c *Ctx) {
 		if n == 0 {
 			c.Unresolved("C15.2", "Add", "no append to cache")
 		}
+		// C15.9 a command is left out only because it is a duplicate: every path through Add that does not
+		// append crosses the isDuplicate(cmd) edge (a nil command may be refused too)
+		isAppend := func(in ssa.Instruction) bool {
+			st, ok := in.(*ssa.Store)
+			if !ok {
+				return false
+			}
+			fa, ok := st.Addr.(*ssa.FieldAddr)
+			if !ok || fieldName(fa.X.Type(), fa.Field) != kCC+"cache" {
+				return false
+			}
+			call, ok := st.Val.(*ssa.Call)
+			if !ok {
+				return false
+			}
+			b, ok := call.Call.Value.(*ssa.Builtin)
+			return ok && b.Name() == "append"
+		}
+		dupEdge := func(fs []Fact) bool {
+			for _, f := range fs {
+				if f.Op == "true" && strings.HasPrefix(f.L, kCCDup+"p1)") {
+					return true
+				}
+				if f.Op == "==" && oneIsNil(f) && nonNil(f) == "p1" {
+					return true
+				}
+			}
+			return false
+		}
+		w := cfgSearch(fl, nil, add.Blocks[0], isReturn, func(in ssa.Instruction) bool { return isAppend(in) || helperAlways(in, isAppend, 0) }, dupEdge)
+		c.Check(w == nil, "C15.9", "Add: only duplicates are left out", p.FuncPos(add),
+			"every path through Add appends the command to the cache or takes the isDuplicate(cmd) edge",
+			"Add can return at "+posOf(p, w)+" without storing a command that is not a duplicate: a command the clients submitted is never proposed by this replica (its views produce no block while commands are available)")
 	}
 	// C15.2 (b) Get: after a successful extraction, re-signal if another full batch remains; C15.3 returns
 	{
@@ -174,6 +207,23 @@ func checkC15(c *Ctx) {
 				c.Check(w == nil, "C15.2", "Get: re-signal after extraction when another full batch remains", p.FuncPos(get),
 					"every path from a successful extraction to the end of the critical section calls signalReady or takes the !hasFullBatch() edge",
 					"after a successful extraction the lock can be released at "+posOf(p, w)+" with a full batch left and no signal")
+			}
+		}
+		if n == 0 {
+			// the extraction's result is handed on untested (`return c.tryExtractBatch()`): whatever follows the call
+			// inside the critical section follows a possibly successful extraction
+			for _, hf := range helperClosure(p, get, 2) {
+				if hf == try || hf == full || hf == sig || hf == dup {
+					continue
+				}
+				hfl := NewFlow(p, hf)
+				for _, s := range callsIn(hf, false, func(cc *ssa.CallCommon) bool { return calleeIs(cc, try) }) {
+					n++
+					w := cfgSearch(hfl, s, nil, isUnlockOrRet, isSignal, notFullEdge)
+					c.Check(w == nil, "C15.2", "Get: re-signal after extraction when another full batch remains", p.FuncPos(get),
+						"every path from the extraction to the end of the critical section calls signalReady or takes the !hasFullBatch() edge",
+						"after a successful extraction the critical section ends at "+posOf(p, w)+" with a full batch possibly left and no signal: a second waiting Get is never woken")
+				}
 			}
 		}
 		if n == 0 {
